@@ -27,7 +27,10 @@ def run(ctx, model_ok):
                             "(exact-arithmetic termination with an explicit iteration bound IS proved for the scalar loops cel_iter0 and cel0, and for BHJM_circle on every input)",
                             "termination of the vectorised celv (per entry the cel0 loop executed at least once, without the kc == 0 guard) and of the el3 iterations: not modelled "
                             "(cel_iterv and the dispatcher cel_iter ARE modelled, tied by the kern stream and proved to terminate on batches)",
-                            "definedness of Cuboid/Cylinder/CylinderSegment/Triangle closed forms off their special sets (kernels not ported to the real carrier); "
+                            "definedness of Cuboid/CylinderSegment/Triangle closed forms off their special sets; Cylinder (ported, single-row path): the near-axis Taylor branch r/r0 < 0.05 is proved to "
+                            "divide by positive numbers only and to need no elliptic integral (`cylinder_axis_branch_defined`); every cel0 call of both kernels is proved to have a "
+                            "non-zero modulus off the masked edge and to return, hence BHJM_magnet_cylinder returns for every input with d > 0, h >= 0 (`cylinder_terminates`); "
+                            "non-vanishing of the other divisors of the general diametral branch (r, r^2, ap, am) and of cel0's prologue is not shown; "
                             "Circle: divisors of the general and on-axis branches and of the cel_iter0 loop are proved positive, cel0's divisors (pp, g in the p <= 0 prologue) are not"]
 
 
